@@ -407,7 +407,7 @@ int __wrap_pthread_mutex_destroy(pthread_mutex_t *m) {
     int o = vs_obj_id(m, 1);
     if (vs_objs[o].owner >= 0) vs_fail("sync-misuse", "mutex (obj %d) destroyed while held by T%d", o, vs_objs[o].owner);
     for (int t = 0; t < vs_nthreads; ++t)
-        if (vs_th[t].state == 1 && vs_th[t].op == VOP_LOCK && vs_th[t].obj == o) vs_fail("sync-misuse", "mutex (obj %d) destroyed while T%d waits for it", o, t);
+        if (t != vs_me && vs_th[t].state == 1 && vs_th[t].op == VOP_LOCK && vs_th[t].obj == o) vs_fail("sync-misuse", "mutex (obj %d) destroyed while T%d waits for it", o, t);
     vs_objs[o].destroyed = 1;
     return 0;
 }
@@ -448,7 +448,7 @@ int __wrap_pthread_cond_destroy(pthread_cond_t *c) {
     if (VS_PASS) return __real_pthread_cond_destroy(c);
     int o = vs_obj_id(c, 2);
     for (int t = 0; t < vs_nthreads; ++t)
-        if (vs_th[t].state == 1 && vs_th[t].op == VOP_CWAKE && vs_th[t].waiting_cv == o && !vs_th[t].signalled && !vs_th[t].timedout)
+        if (t != vs_me && vs_th[t].state == 1 && vs_th[t].op == VOP_CWAKE && vs_th[t].waiting_cv == o && !vs_th[t].signalled && !vs_th[t].timedout)
             vs_fail("sync-misuse", "condition variable (obj %d) destroyed while T%d waits on it", o, t);
     vs_objs[o].destroyed = 1;
     return 0;
